@@ -36,6 +36,9 @@ structure CtlInv (s : Sys) : Prop where
   srv_q : s.srv = true → s.qref = true ∧ s.thrRef = true
   nosrv_idle : s.srv = false → allIdle s.senders = true
   nothr_cb : s.thrRef = false → cbQuiet s
+  evOff : s.stopEv = true → s.thrRef = false ∨ s.main = .tJoin
+  thrAlive : s.thrRef = true → s.cb ≠ .off
+  noDone : s.thrRef = true → s.stopEv = false → ∀ e, s.cb ≠ .done e
 
 theorem allIdle_get {l : List Sender} (h : allIdle l = true) {j : Nat} {sd : Sender}
     (hj : l[j]? = some sd) : sd.pc = .idle := by
@@ -44,10 +47,10 @@ theorem allIdle_get {l : List Sender} (h : allIdle l = true) {j : Nat} {sd : Sen
   exact h sd hm
 
 theorem ctl_init (n : Nat) : CtlInv (init n) := by
-  refine ⟨?_, ?_, ?_, ?_, ?_, ?_, ?_, ?_, ?_⟩ <;> simp [init, MainOK, cbQuiet, allIdle]
+  refine ⟨?_, ?_, ?_, ?_, ?_, ?_, ?_, ?_, ?_, ?_, ?_, ?_⟩ <;> simp [init, MainOK, cbQuiet, allIdle]
 
 theorem ctl_start {c : Cfg} {s s' : Sys} (_hc : c.proto = .fixed) (h : CtlInv s) (hs : stepStart s = some s') : CtlInv s' := by
-  obtain ⟨m, a1, a2, a3, a4, a5, a6, a7, a8⟩ := h
+  obtain ⟨m, a1, a2, a3, a4, a5, a6, a7, a8, a9, a10, a11⟩ := h
   unfold stepStart at hs
   split at hs
   · rename_i hg
@@ -56,20 +59,20 @@ theorem ctl_start {c : Cfg} {s s' : Sys} (_hc : c.proto = .fixed) (h : CtlInv s)
     split at hs
     · simp_all
     · injection hs with hs; subst hs
-      refine ⟨?_, ?_, ?_, ?_, ?_, ?_, ?_, ?_, ?_⟩ <;> simp_all [MainOK, cbQuiet]
+      refine ⟨?_, ?_, ?_, ?_, ?_, ?_, ?_, ?_, ?_, ?_, ?_, ?_⟩ <;> simp_all [MainOK, cbQuiet]
   · simp at hs
 end Proofs.Listener
 
 namespace Proofs.Listener
 theorem ctl_stop {c : Cfg} {s s' : Sys} (hc : c.proto = .fixed) (h : CtlInv s) (hs : stepStop c s = some s') : CtlInv s' := by
-  obtain ⟨m, a1, a2, a3, a4, a5, a6, a7, a8⟩ := h
+  obtain ⟨m, a1, a2, a3, a4, a5, a6, a7, a8, a9, a10, a11⟩ := h
   unfold stepStop at hs
   split at hs
   · rename_i hm
     simp [MainOK, hm] at m
     split at hs
     · injection hs with hs; subst hs
-      refine ⟨?_, ?_, ?_, ?_, ?_, ?_, ?_, ?_, ?_⟩ <;> simp_all [MainOK, cbQuiet]
+      refine ⟨?_, ?_, ?_, ?_, ?_, ?_, ?_, ?_, ?_, ?_, ?_, ?_⟩ <;> simp_all [MainOK, cbQuiet]
     · injection hs with hs; subst hs
       rename_i hsrv
       simp at hsrv
@@ -78,40 +81,40 @@ theorem ctl_stop {c : Cfg} {s s' : Sys} (hc : c.proto = .fixed) (h : CtlInv s) (
         · rfl
         · have := (m.1 hu).1; simp_all
       obtain ⟨h1, h2, h3, h4⟩ := m.2 hup
-      refine ⟨?_, ?_, ?_, ?_, ?_, ?_, ?_, ?_, ?_⟩ <;> simp_all [MainOK, cbQuiet, afterServers, afterQ]
+      refine ⟨?_, ?_, ?_, ?_, ?_, ?_, ?_, ?_, ?_, ?_, ?_, ?_⟩ <;> simp_all [MainOK, cbQuiet, afterServers, afterQ]
   · simp at hs
 
 theorem ctl_main {c : Cfg} {s s' : Sys} (hc : c.proto = .fixed) (h : CtlInv s) (hs : stepMain c s = some s') : CtlInv s' := by
-  obtain ⟨m, a1, a2, a3, a4, a5, a6, a7, a8⟩ := h
+  obtain ⟨m, a1, a2, a3, a4, a5, a6, a7, a8, a9, a10, a11⟩ := h
   unfold stepMain at hs
   split at hs <;> rename_i hm <;> simp [MainOK, hm] at m
   · simp at hs
   · injection hs with hs; subst hs
-    refine ⟨?_, ?_, ?_, ?_, ?_, ?_, ?_, ?_, ?_⟩ <;> simp_all [MainOK, cbQuiet]
+    refine ⟨?_, ?_, ?_, ?_, ?_, ?_, ?_, ?_, ?_, ?_, ?_, ?_⟩ <;> simp_all [MainOK, cbQuiet]
   · injection hs with hs; subst hs
-    refine ⟨?_, ?_, ?_, ?_, ?_, ?_, ?_, ?_, ?_⟩ <;> simp_all [MainOK, cbQuiet]
+    refine ⟨?_, ?_, ?_, ?_, ?_, ?_, ?_, ?_, ?_, ?_, ?_, ?_⟩ <;> simp_all [MainOK, cbQuiet]
   · injection hs with hs; subst hs
-    refine ⟨?_, ?_, ?_, ?_, ?_, ?_, ?_, ?_, ?_⟩ <;> simp_all [MainOK, cbQuiet]
+    refine ⟨?_, ?_, ?_, ?_, ?_, ?_, ?_, ?_, ?_, ?_, ?_, ?_⟩ <;> simp_all [MainOK, cbQuiet]
   · injection hs with hs; subst hs
-    refine ⟨?_, ?_, ?_, ?_, ?_, ?_, ?_, ?_, ?_⟩ <;> simp_all [MainOK, cbQuiet]
+    refine ⟨?_, ?_, ?_, ?_, ?_, ?_, ?_, ?_, ?_, ?_, ?_, ?_⟩ <;> simp_all [MainOK, cbQuiet]
   · split at hs
     · injection hs with hs; subst hs
       have := a6 m.2.1
-      refine ⟨?_, ?_, ?_, ?_, ?_, ?_, ?_, ?_, ?_⟩ <;> simp_all [MainOK, cbQuiet, afterServers]
+      refine ⟨?_, ?_, ?_, ?_, ?_, ?_, ?_, ?_, ?_, ?_, ?_, ?_⟩ <;> simp_all [MainOK, cbQuiet, afterServers]
     · simp at hs
   · injection hs with hs; subst hs
     unfold pollStep
     split
-    · refine ⟨?_, ?_, ?_, ?_, ?_, ?_, ?_, ?_, ?_⟩ <;> simp_all [MainOK, cbQuiet]
-    · refine ⟨?_, ?_, ?_, ?_, ?_, ?_, ?_, ?_, ?_⟩ <;> simp_all [MainOK, cbQuiet, afterQ]
+    · refine ⟨?_, ?_, ?_, ?_, ?_, ?_, ?_, ?_, ?_, ?_, ?_, ?_⟩ <;> simp_all [MainOK, cbQuiet]
+    · refine ⟨?_, ?_, ?_, ?_, ?_, ?_, ?_, ?_, ?_, ?_, ?_, ?_⟩ <;> simp_all [MainOK, cbQuiet, afterQ]
   · injection hs with hs; subst hs
-    refine ⟨?_, ?_, ?_, ?_, ?_, ?_, ?_, ?_, ?_⟩ <;> simp_all [MainOK, cbQuiet]
+    refine ⟨?_, ?_, ?_, ?_, ?_, ?_, ?_, ?_, ?_, ?_, ?_, ?_⟩ <;> simp_all [MainOK, cbQuiet]
   · split at hs
     · injection hs with hs; subst hs
       rename_i exc hcb
       have : exc = false := by cases exc <;> simp_all
       subst this
-      refine ⟨?_, ?_, ?_, ?_, ?_, ?_, ?_, ?_, ?_⟩ <;> simp_all [MainOK, cbQuiet, joinStep]
+      refine ⟨?_, ?_, ?_, ?_, ?_, ?_, ?_, ?_, ?_, ?_, ?_, ?_⟩ <;> simp_all [MainOK, cbQuiet, joinStep]
     · simp at hs
 end Proofs.Listener
 
@@ -124,7 +127,7 @@ theorem mainOK_congr {s s' : Sys} (h : MainOK s) (h1 : s'.main = s.main) (h2 : s
   cases hm : s.main <;> simp [hm] at h ⊢ <;> simp_all
 
 theorem ctl_cb {c : Cfg} {s s' : Sys} (hc : c.proto = .fixed) (h : CtlInv s) (hs : stepCb c s = some s') : CtlInv s' := by
-  obtain ⟨m, a1, a2, a3, a4, a5, a6, a7, a8⟩ := h
+  obtain ⟨m, a1, a2, a3, a4, a5, a6, a7, a8, a9, a10, a11⟩ := h
   have ht : s.thrRef = true := by
     cases ht : s.thrRef
     · have := a8 ht; unfold stepCb at hs; rcases this with h | h <;> simp [h] at hs
@@ -133,22 +136,22 @@ theorem ctl_cb {c : Cfg} {s s' : Sys} (hc : c.proto = .fixed) (h : CtlInv s) (hs
   split at hs <;> rename_i hcb
   · simp at hs
   · injection hs with hs; subst hs
-    refine ⟨mainOK_congr m ?_ ?_ ?_ ?_ ?_ ?_ ?_ ?_, ?_, ?_, ?_, ?_, ?_, ?_, ?_, ?_⟩ <;> simp_all [cbQuiet, loopTop]
+    refine ⟨mainOK_congr m ?_ ?_ ?_ ?_ ?_ ?_ ?_ ?_, ?_, ?_, ?_, ?_, ?_, ?_, ?_, ?_, ?_, ?_, ?_⟩ <;> simp_all [cbQuiet, loopTop]
   · split at hs <;> rename_i hq
     · injection hs with hs; subst hs
-      refine ⟨mainOK_congr m ?_ ?_ ?_ ?_ ?_ ?_ ?_ ?_, ?_, ?_, ?_, ?_, ?_, ?_, ?_, ?_⟩ <;> simp_all [cbQuiet]
+      refine ⟨mainOK_congr m ?_ ?_ ?_ ?_ ?_ ?_ ?_ ?_, ?_, ?_, ?_, ?_, ?_, ?_, ?_, ?_, ?_, ?_, ?_⟩ <;> simp_all [cbQuiet]
     · injection hs with hs; subst hs
-      refine ⟨mainOK_congr m ?_ ?_ ?_ ?_ ?_ ?_ ?_ ?_, ?_, ?_, ?_, ?_, ?_, ?_, ?_, ?_⟩ <;>
+      refine ⟨mainOK_congr m ?_ ?_ ?_ ?_ ?_ ?_ ?_ ?_, ?_, ?_, ?_, ?_, ?_, ?_, ?_, ?_, ?_, ?_, ?_⟩ <;>
         simp_all [cbQuiet, nextDeliver, afterCallbacks] <;> split <;> simp_all
   · injection hs with hs; subst hs
-    refine ⟨mainOK_congr m ?_ ?_ ?_ ?_ ?_ ?_ ?_ ?_, ?_, ?_, ?_, ?_, ?_, ?_, ?_, ?_⟩ <;> simp_all [cbQuiet]
+    refine ⟨mainOK_congr m ?_ ?_ ?_ ?_ ?_ ?_ ?_ ?_, ?_, ?_, ?_, ?_, ?_, ?_, ?_, ?_, ?_, ?_, ?_⟩ <;> simp_all [cbQuiet]
   · injection hs with hs; subst hs
-    refine ⟨mainOK_congr m ?_ ?_ ?_ ?_ ?_ ?_ ?_ ?_, ?_, ?_, ?_, ?_, ?_, ?_, ?_, ?_⟩ <;>
+    refine ⟨mainOK_congr m ?_ ?_ ?_ ?_ ?_ ?_ ?_ ?_, ?_, ?_, ?_, ?_, ?_, ?_, ?_, ?_, ?_, ?_, ?_⟩ <;>
         simp_all [cbQuiet, nextDeliver, afterCallbacks] <;> split <;> simp_all
   · injection hs with hs; subst hs
-    refine ⟨mainOK_congr m ?_ ?_ ?_ ?_ ?_ ?_ ?_ ?_, ?_, ?_, ?_, ?_, ?_, ?_, ?_, ?_⟩ <;> simp_all [cbQuiet, loopTop]
+    refine ⟨mainOK_congr m ?_ ?_ ?_ ?_ ?_ ?_ ?_ ?_, ?_, ?_, ?_, ?_, ?_, ?_, ?_, ?_, ?_, ?_, ?_⟩ <;> simp_all [cbQuiet, loopTop]
   · split at hs <;> injection hs with hs <;> subst hs <;>
-      refine ⟨mainOK_congr m ?_ ?_ ?_ ?_ ?_ ?_ ?_ ?_, ?_, ?_, ?_, ?_, ?_, ?_, ?_, ?_⟩ <;> simp_all [cbQuiet, loopTop]
+      refine ⟨mainOK_congr m ?_ ?_ ?_ ?_ ?_ ?_ ?_ ?_, ?_, ?_, ?_, ?_, ?_, ?_, ?_, ?_, ?_, ?_, ?_⟩ <;> simp_all [cbQuiet, loopTop]
   · simp at hs
 end Proofs.Listener
 
@@ -161,7 +164,7 @@ theorem mainOK_congr_srv {s s' : Sys} (h : MainOK s) (hsrv : s.srv = true) (h1 :
   cases hm : s.main <;> simp [hm] at h ⊢ <;> simp_all
 
 theorem ctl_snd {c : Cfg} {s s' : Sys} (_hc : c.proto = .fixed) (h : CtlInv s) {j : Nat} (hs : stepSnd c s j = some s') : CtlInv s' := by
-  obtain ⟨m, a1, a2, a3, a4, a5, a6, a7, a8⟩ := h
+  obtain ⟨m, a1, a2, a3, a4, a5, a6, a7, a8, a9, a10, a11⟩ := h
   unfold stepSnd at hs
   split at hs
   · simp at hs
@@ -177,13 +180,13 @@ theorem ctl_snd {c : Cfg} {s s' : Sys} (_hc : c.proto = .fixed) (h : CtlInv s) {
     split at hs <;> rename_i hpc
     · split at hs
       · simp [hq] at hs; subst hs
-        refine ⟨mainOK_congr_srv m hsrv ?_ ?_ ?_ ?_ ?_ ?_ ?_, ?_, ?_, ?_, ?_, ?_, ?_, ?_, ?_⟩ <;> simp_all [cbQuiet]
+        refine ⟨mainOK_congr_srv m hsrv ?_ ?_ ?_ ?_ ?_ ?_ ?_, ?_, ?_, ?_, ?_, ?_, ?_, ?_, ?_, ?_, ?_, ?_⟩ <;> simp_all [cbQuiet]
       · simp at hs
     · split at hs <;> injection hs with hs <;> subst hs <;>
-        refine ⟨mainOK_congr_srv m hsrv ?_ ?_ ?_ ?_ ?_ ?_ ?_, ?_, ?_, ?_, ?_, ?_, ?_, ?_, ?_⟩ <;> simp_all [cbQuiet]
+        refine ⟨mainOK_congr_srv m hsrv ?_ ?_ ?_ ?_ ?_ ?_ ?_, ?_, ?_, ?_, ?_, ?_, ?_, ?_, ?_, ?_, ?_, ?_⟩ <;> simp_all [cbQuiet]
     all_goals
       injection hs with hs; subst hs
-      refine ⟨mainOK_congr_srv m hsrv ?_ ?_ ?_ ?_ ?_ ?_ ?_, ?_, ?_, ?_, ?_, ?_, ?_, ?_, ?_⟩ <;> simp_all [cbQuiet]
+      refine ⟨mainOK_congr_srv m hsrv ?_ ?_ ?_ ?_ ?_ ?_ ?_, ?_, ?_, ?_, ?_, ?_, ?_, ?_, ?_, ?_, ?_, ?_⟩ <;> simp_all [cbQuiet]
 end Proofs.Listener
 
 namespace Proofs.Listener
@@ -613,5 +616,360 @@ theorem partialLog_sub {c : Cfg} {s : Sys} {k : Nat} {x : Ind} (h : (k, x) ∈ p
     x ∈ inflight s := by
   unfold partialLog at h; unfold inflight
   split at h <;> simp_all [mem_calls]
+
+end Proofs.Listener
+
+namespace Proofs.Listener
+
+theorem count_calls (k m : Nat) (x y : Ind) : (calls m y).count (k, x) = if k < m ∧ x = y then 1 else 0 := by
+  induction m with
+  | zero => simp [calls]
+  | succ m ih =>
+    rw [calls_succ, List.count_append, ih, List.count_singleton]
+    by_cases hxy : x = y
+    · subst hxy
+      by_cases hk : k < m
+      · have : ¬ (m = k) := by omega
+        simp [hk, this]; omega
+      · by_cases hk2 : k = m
+        · subst hk2; simp
+        · have h3 : ¬ k < m + 1 := by omega
+          have h4 : ¬ (m = k) := fun e => hk2 e.symm
+          simp [hk, h3, h4]
+    · have : ¬ (y = x) := fun e => hxy e.symm
+      simp [hxy, this]
+
+theorem count_expand (k n : Nat) (x : Ind) (d : List Ind) :
+    (expand n d).count (k, x) = if k < n then d.count x else 0 := by
+  induction d with
+  | nil => simp [expand]
+  | cons y ys ih =>
+    have : expand n (y :: ys) = calls n y ++ expand n ys := by simp [expand]
+    rw [this, List.count_append, ih, count_calls, List.count_cons]
+    by_cases hk : k < n <;> by_cases hxy : x = y
+    · subst hxy; simp [hk]; omega
+    · have : ¬ (y = x) := fun e => hxy e.symm
+      simp [hk, hxy, this]
+    · simp [hk]
+    · simp [hk]
+
+
+theorem perSender_nodup (l : List Ind) (hl : l.Pairwise perSender) : l.Nodup := by
+  refine List.Pairwise.imp ?_ hl
+  intro a b hab e
+  subst e
+  exact Nat.lt_irrefl _ (hab rfl)
+
+/-- the indication in flight is one indication; the partial log is its `calls` -/
+theorem partialLog_calls (c : Cfg) (s : Sys) :
+    (inflight s = [] ∧ partialLog c s = []) ∨ ∃ y m, inflight s = [y] ∧ partialLog c s = calls m y := by
+  unfold inflight partialLog
+  split
+  · exact Or.inr ⟨_, _, rfl, rfl⟩
+  · exact Or.inr ⟨_, _, rfl, rfl⟩
+  · exact Or.inr ⟨_, _, rfl, rfl⟩
+  · rename_i h1 h2 h3
+    left
+    cases hcb : s.cb <;> simp_all
+
+end Proofs.Listener
+
+namespace Proofs.Listener
+
+/-! ### progress measure: stop() can always return -/
+
+def W (c : Cfg) : Nat := 2 * c.ncb + 3
+
+def mainRank (s : Sys) : Nat :=
+  match s.main with
+  | .sMkq => 130 | .sThr => 120 | .sSrv => 110
+  | .idle => if s.up then 100 else 0
+  | .tShutdown => 90 | .tClose => 80 | .tPoll => 70 | .tSetEv => 60 | .tJoin => 50
+
+def hWork (c : Cfg) : HPc → Nat
+  | .idle => 0 | .put => W c + 2 | .respOk => 1 | .respIgn => 1 | .respErr => 1
+
+def sndWork (c : Cfg) : List Sender → Nat
+  | [] => 0
+  | sd :: l => hWork c sd.pc + sndWork c l
+
+def cbRem (c : Cfg) (s : Sys) : Nat :=
+  match s.cb with
+  | .off => 0 | .done _ => 0
+  | .chk => if s.stopEv then 1 else 3
+  | .get => 2 | .run => 3 | .taskDone _ => 3
+  | .inCb _ k => 2 * (c.ncb - k) + 2
+  | .enter _ k => 2 * (c.ncb - k) + 3
+
+def measure (c : Cfg) (s : Sys) : Nat :=
+  mainRank s + sndWork c s.senders + (s.queue.length * W c + cbRem c s)
+
+theorem sndWork_set (c : Cfg) (l : List Sender) (j : Nat) (sd sd' : Sender) (hj : l[j]? = some sd) :
+    sndWork c (l.set j sd') + hWork c sd.pc = sndWork c l + hWork c sd'.pc := by
+  induction l generalizing j with
+  | nil => simp at hj
+  | cons a l ih =>
+    cases j with
+    | zero => simp at hj; subst hj; simp [sndWork]; omega
+    | succ j => simp at hj; have := ih j hj; simp [sndWork]; omega
+
+theorem exists_busy (l : List Sender) (h : allIdle l = false) :
+    ∃ (j : Nat) (sd : Sender), l[j]? = some sd ∧ sd.pc ≠ HPc.idle := by
+  induction l with
+  | nil => simp [allIdle] at h
+  | cons a l ih =>
+    by_cases ha : a.pc = HPc.idle
+    · have : allIdle l = false := by simpa [allIdle, ha] using h
+      obtain ⟨j, sd, hj, hp⟩ := ih this
+      refine ⟨j + 1, sd, ?_, hp⟩
+      simp [hj]
+    · exact ⟨0, a, by simp, ha⟩
+
+
+theorem rank_afterQ (c : Cfg) (s : Sys) (hup : s.up = false) : mainRank (afterQ c s) ≤ 60 := by
+  unfold afterQ; split
+  · simp [mainRank]
+  · split <;> simp [mainRank, hup]
+
+theorem rank_afterServers (c : Cfg) (s : Sys) (hup : s.up = false) : mainRank (afterServers c s) ≤ 70 := by
+  unfold afterServers; split
+  · simp [mainRank]
+  · have := rank_afterQ c s hup; omega
+
+theorem measure_sameData {c : Cfg} {s s' : Sys} (h : sameData s s') (hev : s'.stopEv = s.stopEv) :
+    measure c s' + mainRank s = mainRank s' + measure c s := by
+  obtain ⟨h1, h2, h3, _⟩ := h
+  simp only [measure, cbRem, h1, h2, h3, hev]
+  omega
+
+theorem stopEv_afterQ (c : Cfg) (s : Sys) : (afterQ c s).stopEv = s.stopEv := by
+  unfold afterQ; split
+  · rfl
+  · split <;> rfl
+
+theorem stopEv_afterServers (c : Cfg) (s : Sys) : (afterServers c s).stopEv = s.stopEv := by
+  unfold afterServers; split
+  · rfl
+  · exact stopEv_afterQ c s
+
+/-- main-thread cases of the progress lemma -/
+theorem progress_main {c : Cfg} (hc : c.proto = .fixed) {s : Sys} (I : Inv c s)
+    (hm : s.main ≠ .idle) (hclose : s.main = .tClose → allIdle s.senders = true)
+    (hpoll : s.main = .tPoll → s.queue = []) (hjoin : s.main = .tJoin → ∃ e, s.cb = .done e) :
+    ∃ s', stepMain c s = some s' ∧ measure c s' < measure c s := by
+  have m := I.ctl.mainOK
+  cases hmain : s.main <;> simp [MainOK, hmain] at m
+  · exact absurd hmain hm
+  · -- sMkq
+    refine ⟨{ s with qref := true, queue := [], main := .sThr }, by simp [stepMain, hmain], ?_⟩
+    simp [measure, mainRank, cbRem, hmain, m.2.2.2.2]
+  · -- sThr
+    refine ⟨{ s with thrRef := true, stopEv := false, cb := .run, main := .sSrv }, by simp [stepMain, hmain], ?_⟩
+    have hq := I.ctl.nothr_cb m.2.2.1
+    rcases hq with hq | hq <;> simp [measure, mainRank, cbRem, hmain, hq] <;> omega
+  · -- sSrv
+    refine ⟨{ s with srv := true, accepting := true, main := .idle }, by simp [stepMain, hmain], ?_⟩
+    simp [measure, mainRank, cbRem, hmain, m.1]
+  · -- tShutdown
+    refine ⟨{ s with accepting := false, main := .tClose }, by simp [stepMain, hmain], ?_⟩
+    simp [measure, mainRank, cbRem, hmain]
+  · -- tClose
+    have hi := hclose hmain
+    refine ⟨afterServers c { s with srv := false }, by simp [stepMain, hmain, hi], ?_⟩
+    have h1 := rank_afterServers c { s with srv := false } m.1
+    have h2 := measure_sameData (c := c) (sameData_afterServers c { s with srv := false })
+      (stopEv_afterServers c { s with srv := false })
+    have h4 : measure c { s with srv := false } = measure c s := by simp [measure, mainRank, cbRem]
+    have h5 : mainRank { s with srv := false } = 80 := by simp [mainRank, hmain]
+    have h6 : mainRank s = 80 := by simp [mainRank, hmain]
+    have h7 : mainRank s ≤ measure c s := by simp only [measure]; omega
+    omega
+  · -- tPoll
+    have hq := hpoll hmain
+    have hps : pollStep c s = afterQ c s := by simp [pollStep, hq, hc]
+    refine ⟨afterQ c s, by simp [stepMain, hmain, hps], ?_⟩
+    have h1 := rank_afterQ c s m.1
+    have h2 := measure_sameData (c := c) (sameData_afterQ c s) (stopEv_afterQ c s)
+    have h6 : mainRank s = 70 := by simp [mainRank, hmain]
+    have h7 : mainRank s ≤ measure c s := by simp only [measure]; omega
+    omega
+  · -- tSetEv
+    refine ⟨{ s with stopEv := true, main := .tJoin }, by simp [stepMain, hmain], ?_⟩
+    simp only [measure, mainRank, cbRem, hmain]
+    cases hcb : s.cb <;> simp <;> split <;> omega
+  · -- tJoin
+    obtain ⟨e, he⟩ := hjoin hmain
+    have : e = false := by
+      cases e
+      · rfl
+      · exact absurd he I.ctl.noExc
+    subst this
+    refine ⟨joinStep c s false, by simp [stepMain, hmain, he], ?_⟩
+    simp [joinStep, hc, measure, mainRank, cbRem, hmain, he, m.1]
+
+
+/-- callback-thread cases: every step of a live callback thread makes progress, except the idle
+    timeout (`get` on an empty queue while no stop was requested) -/
+theorem progress_cb {c : Cfg} (hc : c.proto = .fixed) {s : Sys} (hk : KOk c s)
+    (hoff : s.cb ≠ .off) (hdone : ∀ e, s.cb ≠ .done e) (hwork : s.queue ≠ [] ∨ s.stopEv = true) :
+    ∃ s', stepCb c s = some s' ∧ measure c s' < measure c s := by
+  have hW : W c = 2 * c.ncb + 3 := rfl
+  cases hcb : s.cb with
+  | off => exact absurd hcb hoff
+  | done e => exact absurd hcb (hdone e)
+  | run =>
+    refine ⟨{ s with cb := .get }, by simp [stepCb, hcb, loopTop, hc], ?_⟩
+    simp [measure, mainRank, cbRem, hcb]
+  | get =>
+    cases hq : s.queue with
+    | nil =>
+      have hev : s.stopEv = true := by rcases hwork with h | h; exact absurd hq h; exact h
+      refine ⟨{ s with cb := .chk }, by simp [stepCb, hcb, hq], ?_⟩
+      simp [measure, mainRank, cbRem, hcb, hq, hev]
+    | cons x q =>
+      refine ⟨nextDeliver c { s with queue := q } x 0, by simp [stepCb, hcb, hq], ?_⟩
+      unfold nextDeliver
+      split
+      · simp [measure, mainRank, cbRem, hcb, hq, Nat.add_mul, hW]
+      · rename_i h0
+        have : c.ncb = 0 := by omega
+        simp [afterCallbacks, hc, measure, mainRank, cbRem, hcb, hq, Nat.add_mul, hW, this]
+  | enter x k =>
+    refine ⟨{ s with log := s.log ++ [(k, x)], cb := .inCb x k }, by simp [stepCb, hcb], ?_⟩
+    simp [measure, mainRank, cbRem, hcb]
+  | inCb x k =>
+    have hkk : k < c.ncb := by simpa [KOk, hcb] using hk
+    refine ⟨nextDeliver c s x (k + 1), by simp [stepCb, hcb], ?_⟩
+    unfold nextDeliver
+    split
+    · simp [measure, mainRank, cbRem, hcb]; omega
+    · simp [afterCallbacks, hc, measure, mainRank, cbRem, hcb]; omega
+  | taskDone x =>
+    refine ⟨{ s with dlv := s.dlv ++ [x], cb := .get }, by simp [stepCb, hcb, loopTop, hc], ?_⟩
+    simp [measure, mainRank, cbRem, hcb]
+  | chk =>
+    cases hev : s.stopEv with
+    | true =>
+      refine ⟨{ s with cb := .done false }, by simp [stepCb, hcb, hev], ?_⟩
+      simp [measure, mainRank, cbRem, hcb, hev]
+    | false =>
+      refine ⟨{ s with cb := .get }, by simp [stepCb, hcb, hev, loopTop, hc], ?_⟩
+      simp [measure, mainRank, cbRem, hcb, hev]
+
+/-- a handler thread that is not idle can always step, and that makes progress -/
+theorem progress_snd {c : Cfg} {s : Sys} {j : Nat} {sd : Sender} (hj : s.senders[j]? = some sd)
+    (hbusy : sd.pc ≠ .idle) : ∃ s', stepSnd c s j = some s' ∧ measure c s' < measure c s := by
+  have hW : W c = 2 * c.ncb + 3 := rfl
+  have key := fun sd' => sndWork_set c s.senders j sd sd' hj
+  cases hpc : sd.pc with
+  | idle => exact absurd hpc hbusy
+  | put =>
+    cases hf : isFull c s with
+    | true =>
+      refine ⟨{ s with senders := setPc s j sd .respErr }, by simp [stepSnd, hj, stepSndAt, hpc, hf], ?_⟩
+      have := key { sd with pc := .respErr }
+      simp [hWork, hpc] at this
+      simp [measure, mainRank, cbRem, setPc]; omega
+    | false =>
+      refine ⟨{ s with queue := s.queue ++ [(j, sd.next)], enq := s.enq ++ [(j, sd.next)],
+                       senders := setPc s j sd .respOk }, by simp [stepSnd, hj, stepSndAt, hpc, hf], ?_⟩
+      have := key { sd with pc := .respOk }
+      simp [hWork, hpc] at this
+      simp [measure, mainRank, cbRem, setPc, Nat.add_mul]; omega
+  | respOk =>
+    refine ⟨{ s with acked := s.acked ++ [(j, sd.next)], senders := finishReq s j sd },
+      by simp [stepSnd, hj, stepSndAt, hpc], ?_⟩
+    have := key { next := sd.next + 1, pc := .idle }
+    simp [hWork, hpc] at this
+    simp [measure, mainRank, cbRem, finishReq]; omega
+  | respIgn =>
+    refine ⟨{ s with acked := s.acked ++ [(j, sd.next)], senders := finishReq s j sd },
+      by simp [stepSnd, hj, stepSndAt, hpc], ?_⟩
+    have := key { next := sd.next + 1, pc := .idle }
+    simp [hWork, hpc] at this
+    simp [measure, mainRank, cbRem, finishReq]; omega
+  | respErr =>
+    refine ⟨{ s with refused := s.refused ++ [(j, sd.next)], senders := finishReq s j sd },
+      by simp [stepSnd, hj, stepSndAt, hpc], ?_⟩
+    have := key { next := sd.next + 1, pc := .idle }
+    simp [hWork, hpc] at this
+    simp [measure, mainRank, cbRem, finishReq]; omega
+
+
+/-- **Progress.**  In every state satisfying the invariants in which stop() has not returned, some
+    thread can take a step that decreases the measure. -/
+theorem progress {c : Cfg} (hc : c.proto = .fixed) {s : Sys} (I : Inv c s)
+    (hns : ¬ (s.main = .idle ∧ s.up = false)) :
+    ∃ l s', l ≠ .start ∧ step c l s = some s' ∧ measure c s' < measure c s := by
+  have m := I.ctl.mainOK
+  by_cases hidle : s.main = .idle
+  · -- listener is up: call stop()
+    have hup : s.up = true := by
+      cases hu : s.up
+      · exact absurd ⟨hidle, hu⟩ hns
+      · rfl
+    simp [MainOK, hidle, hup] at m
+    refine ⟨.stop, { s with up := false, main := .tShutdown }, by simp, by simp [step, stepStop, hidle, m.1], ?_⟩
+    simp [measure, mainRank, cbRem, hidle, hup]
+  · by_cases hclose : s.main = .tClose ∧ allIdle s.senders = false
+    · obtain ⟨j, sd, hj, hb⟩ := exists_busy _ hclose.2
+      obtain ⟨s', h1, h2⟩ := progress_snd (c := c) hj hb
+      exact ⟨.snd j, s', by simp, h1, h2⟩
+    · by_cases hpoll : s.main = .tPoll ∧ s.queue ≠ []
+      · simp [MainOK, hpoll.1] at m
+        have hev : s.stopEv = false := by
+          cases he : s.stopEv
+          · rfl
+          · rcases I.ctl.evOff he with h | h
+            · simp [m.2.2.2] at h
+            · simp [hpoll.1] at h
+        obtain ⟨s', h1, h2⟩ := progress_cb hc I.data.kOk (I.ctl.thrAlive m.2.2.2)
+          (I.ctl.noDone m.2.2.2 hev) (Or.inl hpoll.2)
+        exact ⟨.cb false, s', by simp, h1, h2⟩
+      · by_cases hjoin : s.main = .tJoin ∧ ∀ e, s.cb ≠ .done e
+        · simp [MainOK, hjoin.1] at m
+          obtain ⟨s', h1, h2⟩ := progress_cb hc I.data.kOk (I.ctl.thrAlive m.2.2.2.1) hjoin.2
+            (Or.inr m.2.2.2.2.2)
+          exact ⟨.cb false, s', by simp, h1, h2⟩
+        · obtain ⟨s', h1, h2⟩ := progress_main hc I hidle
+            (fun h => by
+              cases ha : allIdle s.senders
+              · exact absurd ⟨h, ha⟩ hclose
+              · rfl)
+            (fun h => by
+              cases hq : s.queue with
+              | nil => rfl
+              | cons x q => exact absurd ⟨h, by simp [hq]⟩ hpoll)
+            (fun h => by
+              apply Classical.byContradiction
+              intro hne
+              exact hjoin ⟨h, fun e he => hne ⟨e, he⟩⟩)
+          exact ⟨.main, s', by simp, h1, h2⟩
+
+/-- **stop() can always return**: from every reachable state of the fixed protocol some schedule
+    leads to a state in which stop() has returned (no reachable deadlock, and the polling loops of
+    stop() and of the callback thread cannot keep each other busy for ever once the senders pause). -/
+theorem can_stop {c : Cfg} (hc : c.proto = .fixed) {n : Nat} :
+    ∀ (k : Nat) (s : Sys), Reachable c n s → measure c s ≤ k →
+      ∃ ls s', (∀ l ∈ ls, l ≠ .start) ∧ runTrace c ls s = some s' ∧ s'.main = .idle ∧ s'.up = false := by
+  intro k
+  induction k with
+  | zero =>
+    intro s hr hk
+    by_cases hst : s.main = .idle ∧ s.up = false
+    · exact ⟨[], s, by simp, rfl, hst.1, hst.2⟩
+    · obtain ⟨l, s', _, _, h2⟩ := progress hc (inv_reachable hc hr) hst
+      omega
+  | succ k ih =>
+    intro s hr hk
+    by_cases hst : s.main = .idle ∧ s.up = false
+    · exact ⟨[], s, by simp, rfl, hst.1, hst.2⟩
+    · obtain ⟨l, s1, hl, h1, h2⟩ := progress hc (inv_reachable hc hr) hst
+      obtain ⟨ls, s', h0, h3, h4⟩ := ih s1 (Reachable.step l hr h1) (by omega)
+      refine ⟨l :: ls, s', ?_, by simp [runTrace, h1, h3], h4⟩
+      intro l' hl'
+      rcases List.mem_cons.mp hl' with e | e
+      · rw [e]; exact hl
+      · exact h0 l' e
 
 end Proofs.Listener
